@@ -8,4 +8,5 @@ func genMore() {
 	genErrorSites()
 	genBuilderTables()
 	genTrackConsts()
+	genMapRanges()
 }
